@@ -8,10 +8,12 @@ package c10
 // failing input into a violation whose replay is the corpus file.
 
 import (
+	"bufio"
 	"bytes"
 	"encoding/binary"
 	"io"
 	"net"
+	"net/http"
 	"os"
 	"sync"
 	"testing"
@@ -512,6 +514,97 @@ func FuzzSSPacketsFromKeyHolder(f *testing.F) {
 			}
 			if !bad && isEnded {
 				t.Fatalf("well-formed packets only, but Read failed")
+			}
+		})
+	})
+}
+
+// FuzzMeekResponse: arbitrary bytes as what the HTTP front sends in answer to
+// each of the client's first requests (the connection is closed behind them;
+// later requests get an empty 200).  No panic; data handed to the application
+// only comes from bodies of answers with status 200; after Close everything
+// ends (a goroutine left behind is a deadlock of the bubble and fails the run).
+func FuzzMeekResponse(f *testing.F) {
+	f.Add([]byte("HTTP/1.1 200 OK\r\nContent-Length: 5\r\n\r\nhello"), uint8(1))
+	f.Add([]byte("HTTP/1.1 200 OK\r\nTransfer-Encoding: chunked\r\n\r\n5\r\nhello\r\n0\r\n\r\n"), uint8(2))
+	f.Add([]byte("HTTP/1.1 404 Not Found\r\nContent-Length: 0\r\n\r\n"), uint8(3))
+	f.Add([]byte("HTTP/1.0 200 OK\r\n\r\nbody until close"), uint8(1))
+	f.Add([]byte("HTTP/1.1 200 OK\r\nContent-Length: 99999999999999999999\r\n\r\nx"), uint8(1))
+	f.Add([]byte("HTTP/1.1 100 Continue\r\n\r\nHTTP/1.1 200 OK\r\nContent-Length: 1\r\n\r\nx"), uint8(2))
+	f.Add(bytes.Repeat([]byte{0xff, 0x00, '\r', '\n'}, 500), uint8(3))
+	f.Fuzz(func(t *testing.T, data []byte, times uint8) {
+		synctest.Test(t, func(t *testing.T) {
+			cf, err := transports.Get("meek_lite").ClientFactory("")
+			if err != nil {
+				t.Fatal(err)
+			}
+			args := pt.Args{}
+			args.Add("url", "http://meek.example/")
+			pa, err := cf.ParseArgs(&args)
+			if err != nil {
+				t.Fatal(err)
+			}
+			var mu sync.Mutex
+			var wires []*memwire.Conn
+			requests := 0
+			dialFn := func(string, string) (net.Conn, error) {
+				a, b := memwire.Pair(memwire.Options{})
+				mu.Lock()
+				wires = append(wires, a, b)
+				mu.Unlock()
+				go func() {
+					br := bufio.NewReader(b)
+					for {
+						req, err := http.ReadRequest(br)
+						if err != nil {
+							return
+						}
+						io.Copy(io.Discard, req.Body)
+						mu.Lock()
+						requests++
+						n := requests
+						mu.Unlock()
+						if n <= 1+int(times%3) {
+							b.Write(data)
+							b.Close()
+							return
+						}
+						b.Write([]byte("HTTP/1.1 200 OK\r\nContent-Length: 0\r\n\r\n"))
+					}
+				}()
+				return a, nil
+			}
+			conn, err := cf.Dial("tcp", "192.0.2.9:80", dialFn, pa)
+			if err != nil {
+				return
+			}
+			var got int64
+			rd := make(chan struct{})
+			go func() {
+				defer close(rd)
+				buf := make([]byte, 32768)
+				for {
+					n, err := conn.Read(buf)
+					got += int64(n)
+					if err != nil {
+						return
+					}
+				}
+			}()
+			conn.Write([]byte("hello meek"))
+			time.Sleep(20 * time.Minute)
+			synctest.Wait()
+			conn.Close()
+			<-rd
+			// at most the bodies of the scripted answers can have been delivered
+			if max := int64(len(data)) * int64(1+times%3); got > max {
+				t.Fatalf("%d bytes delivered to the application, the front sent %d bytes in all", got, max)
+			}
+			mu.Lock()
+			ws := append([]*memwire.Conn(nil), wires...)
+			mu.Unlock()
+			for _, w := range ws {
+				w.Close()
 			}
 		})
 	})
